@@ -408,6 +408,68 @@ def as_targ(rng, instant_us):
         return {'s': s}
     return {'d': {'w': instant_us, 'tz': None}}
 
+_FOLD_WALLS = None
+def fold_walls():
+    """[(zone key, wall us)] of wall readings whose utcoffset differs between fold=0 and fold=1 (repeated hour of a
+    fall-back transition, skipped hour of a spring-forward one), found by scanning the offsets of the DST zones"""
+    global _FOLD_WALLS
+    if _FOLD_WALLS is not None: return _FOLD_WALLS
+    out = []
+    for key in zones():
+        if key in FIXED_ZONES: continue
+        z = _zi.ZoneInfo(key)
+        for year in (1975, 1996, 2011, 2021, 2024):
+            day = D(year, 1, 1, 12)
+            prev = day.replace(tzinfo=z).utcoffset()
+            for _ in range(366):
+                nxt = day + TD(days=1)
+                cur = nxt.replace(tzinfo=z).utcoffset()
+                if cur != prev:                      # a transition between the two noons: scan it at 15 min steps
+                    t = day
+                    while t <= nxt:
+                        if t.replace(tzinfo=z, fold=0).utcoffset() != t.replace(tzinfo=z, fold=1).utcoffset():
+                            out.append((key, wall_us(t)))
+                        t += TD(minutes=15)
+                prev = cur; day = nxt
+    _FOLD_WALLS = out
+    return out
+
+def gen_fold(rng):
+    """both folds of one ambiguous / non-existent wall reading (and its neighbours) in ONE sequence, for normalize_time
+    and the three comparisons, each call repeated later in the sequence"""
+    fw = fold_walls()
+    if not fw: return gen_norm(rng)
+    key, w = rng.choice(fw)
+    w += rng.choice([0, 0, 1, 999999, 60 * 10**6, 14 * 60 * 10**6 + 59999999])
+    first = rng.choice([0, 1])
+    specs = [{'w': w, 'tz': ['zone', key], 'fold': f} for f in (first, 1 - first, first)]
+    # same instant seen from another zone / fixed offset (equal datetimes with a different utcoffset)
+    d0 = mkdt(specs[0]); inst = utc_instant(d0)
+    others = []
+    if inst is not None:
+        iw = wall_us(inst)
+        off = rng.choice(OFFS) * MIN
+        if in_rng(iw + off): others.append({'w': iw + off, 'tz': ['fixed', off]})
+        others.append({'w': iw, 'tz': ['utc']})
+        others.append({'w': w + rng.choice([-3600, 3600, -1800, 7200]) * 10**6, 'tz': ['zone', key], 'fold': rng.choice([0, 1])})
+    seq = specs[:2] + others + specs[2:]
+    if rng.random() < 0.4:
+        return case('fold', [['norm', sp] for sp in seq])
+    which = rng.choice(['older', 'newer', 'soon'])
+    now = rand_wall(rng) if rng.random() < 0.2 else min(MAX_US, max(0, (wall_us(inst) if inst is not None else w) + rng.choice([0, 1, -1, 1800 * 10**6, -1800 * 10**6, 3600 * 10**6, -3600 * 10**6, rng.randint(-7200, 7200) * 10**6])))
+    # a margin that separates the two folds: between the two distances to the clock
+    ds = []
+    for sp in specs[:2]:
+        i = utc_instant(mkdt(sp))
+        if i is not None: ds.append((now - wall_us(i)) if which == 'older' else (wall_us(i) - now))
+    s_us = (sum(ds) // len(ds) if ds and rng.random() < 0.7 else rng.choice(ds + [0]) + rng.choice([0, 1, -1]))
+    s = s_us // 10**6 if s_us % 10**6 == 0 else {'f': (s_us / 10**6).hex()}
+    cmds = []
+    for sp in seq:
+        cmds.append([which, {'d': sp}, s])
+        if rng.random() < 0.3: cmds.append(['norm', sp])
+    return case('fold', cmds, ov={'k': 'one', 'd': {'w': now, 'tz': None}})
+
 def case(kind, cmds, ov=None, real=None):
     return {'op': kind, 'kind': kind, 'ov': ov, 'real': REAL_DEFAULT if real is None else real, 'cmds': cmds}
 REAL_DEFAULT = us_of(2024, 2, 29, 12, 34, 56, 789012)
@@ -563,13 +625,25 @@ def fixed_cases():
             out.append(case('norm', [['norm', {'w': w, 'tz': ['fixed', off * MIN]}]]))
             sp = {'w': w, 'tz': ['fixed', off * MIN]}
             out.append(case('iso', [['isofmt', sp], ['parse', mkdt(sp).isoformat()]]))
+    for key, w in (('Europe/Paris', us_of(2021, 10, 31, 2, 30)), ('America/New_York', us_of(2021, 11, 7, 1, 30)), ('Australia/Lord_Howe', us_of(2021, 4, 4, 1, 45)),
+                   ('Europe/Paris', us_of(2021, 3, 28, 2, 30))):
+        if key not in zones(): continue
+        a, b = ({'w': w, 'tz': ['zone', key], 'fold': f} for f in (0, 1))
+        out.append(case('fold', [['norm', a], ['norm', b], ['norm', a]]))
+        out.append(case('fold', [['norm', b], ['norm', a], ['norm', b]]))
+        ia, ib = wall_us(utc_instant(mkdt(a))), wall_us(utc_instant(mkdt(b)))
+        now = max(ia, ib) + 3600 * 10**6
+        mid = (2 * now - ia - ib) // 2 // 10**6
+        for which, sec in (('older', mid), ('newer', -mid), ('soon', -mid)):
+            out.append(case('fold', [[which, {'d': a}, sec], [which, {'d': b}, sec], [which, {'d': a}, sec]], ov={'k': 'one', 'd': {'w': now, 'tz': None}}))
+            out.append(case('fold', [[which, {'d': b}, sec], [which, {'d': a}, sec], [which, {'d': b}, sec]], ov={'k': 'one', 'd': {'w': now, 'tz': None}}))
     out.append(case('cmp', [['soon', {'s': '2020-01-01T00:00:00'}, 1]], ov={'k': 'one', 'd': {'w': now, 'tz': None}}))
     out.append(case('seq', [['set', {'k': 'no'}], ['now', False], ['advs', 5], ['now', False], ['ts', True], ['clear'], ['now', True], ['ts', False], ['ts', True], ['adv', 1]], ov={'k': 'no'}))
     out.append(case('seq', [['now', False], ['adv', 5], ['now', False], ['now', False], ['ts', False], ['set', {'k': 'many', 'l': []}], ['now', False]],
                     ov={'k': 'many', 'l': [{'w': 5, 'tz': None}, {'w': MAX_US, 'tz': None}]}))
     return out
 
-GENS = [(gen_fixture, 4), (gen_norm, 10), (gen_iso, 10), (gen_marsh, 10), (gen_leap, 5), (gen_unm, 8), (gen_clock, 12), (gen_cmp, 25), (gen_seq, 10), (gen_parse, 5), (gen_cal, 8), (gen_dsec, 4)]
+GENS = [(gen_fold, 12), (gen_fixture, 4), (gen_norm, 10), (gen_iso, 10), (gen_marsh, 10), (gen_leap, 5), (gen_unm, 8), (gen_clock, 12), (gen_cmp, 25), (gen_seq, 10), (gen_parse, 5), (gen_cal, 8), (gen_dsec, 4)]
 def gen_cases(rng, tier):
     yield from fixed_cases()
     n = 5000 if tier == 'quick' else 500000
@@ -578,15 +652,16 @@ def gen_cases(rng, tier):
         yield rng.choice(fs)(rng)
 
 def search(rng, budget):
-    fs = [gen_cmp] * 4 + [gen_clock] * 2 + [gen_marsh, gen_leap, gen_norm, gen_iso, gen_unm]
+    fs = [gen_cmp] * 4 + [gen_fold] * 3 + [gen_clock] * 2 + [gen_marsh, gen_leap, gen_norm, gen_iso, gen_unm]
     yield from fixed_cases()
     for _ in range(budget):
         yield rng.choice(fs)(rng)
 
 # ---------------------------------------------------------------- oracle: the property, recomputed with UTC arithmetic
 def utc_instant(d):
-    """naive UTC reading of the instant an aware datetime denotes (None when not representable)"""
-    try: return d.astimezone(UTC).replace(tzinfo=None)
+    """naive UTC reading of the instant an aware datetime denotes: wall reading minus ITS OWN utcoffset() (which honours
+    d.fold); None when not representable"""
+    try: return d.replace(tzinfo=None) - d.utcoffset()
     except OverflowError: return None
 
 def parse_dt_out(s):
@@ -594,19 +669,60 @@ def parse_dt_out(s):
     w, o, n = s.split(',', 2)
     return int(w), (None if o == 'N' else int(o)), n
 
+def check_norm(cmd, out):
+    d = mkdt(cmd[1])
+    r = parse_dt_out(out)
+    if d.tzinfo is None:
+        if r != (wall_us(d), None, 'N'): return 'normalize_time changed the naive %s: %s' % (d.isoformat(), out)
+        return None
+    want = utc_instant(d)
+    if want is None: return None           # the instant is outside datetime's range: nothing is promised
+    if r != (wall_us(want), None, 'N'):
+        return 'normalize_time(%s fold=%d) = %s, the UTC instant is %s' % (d.isoformat(), d.fold, out, want.isoformat())
+    return None
+
+def check_cmp(cmd, out, now):
+    which, targ, s = cmd
+    su = secs_us(s)
+    if su is None: return None
+    if 's' in targ:
+        t = lib_parse(targ['s'])
+        if isinstance(t, Exception): return None
+    else:
+        t = mkdt(targ['d'])
+    tn = utc_instant(t) if t.tzinfo is not None else t
+    if tn is None: return None
+    delta = TD(microseconds=su)
+    if which == 'older': want = now - tn > delta
+    elif which == 'newer': want = tn - now > delta
+    else:
+        try: want = tn <= now + delta
+        except OverflowError: return None
+    if out != str(want):
+        return '%s(%s%s, %r) with now=%s gives %s, expected %s' % ({'older': 'is_older_than', 'newer': 'is_newer_than', 'soon': 'is_soon'}[which],
+            targ.get('s', t.isoformat()), '' if 's' in targ else ' fold=%d' % t.fold, secs_value(s), now.isoformat(), out, want)
+    return None
+
+def check_pure_cmds(c, outs):
+    """norm / older / newer / soon commands of a case whose override is a fixed naive instant: each one against the
+    property, and equal commands must give equal answers wherever they stand in the sequence (statelessness)"""
+    now = DMIN + TD(microseconds=c['ov']['d']['w']) if c.get('ov') and c['ov']['k'] == 'one' else None
+    seen = {}
+    for cmd, o in zip(c['cmds'], outs):
+        if cmd[0] == 'norm': msg = check_norm(cmd, o)
+        elif cmd[0] in ('older', 'newer', 'soon') and now is not None: msg = check_cmp(cmd, o, now)
+        else: continue
+        if msg: return msg
+        key = json.dumps(cmd, sort_keys=True)
+        if seen.setdefault(key, o) != o: return 'the same call %s answered %s and then %s' % (key[:200], seen[key], o)
+    return None
+
 def oracle(c, io):
     kind = c.get('kind')
     outs = io.split(';')
     if any(o.startswith('HARNESS') for o in outs): return 'harness error: ' + io[:200]
-    if kind == 'norm':
-        d = mkdt(c['cmds'][0][1])
-        r = parse_dt_out(outs[0])
-        if d.tzinfo is None:
-            if r != (wall_us(d), None, 'N'): return 'normalize_time changed the naive %s: %s' % (d.isoformat(), outs[0])
-            return None
-        want = utc_instant(d)
-        if want is None: return None           # the instant is outside datetime's range: nothing is promised
-        if r != (wall_us(want), None, 'N'): return 'normalize_time(%s) = %s, the UTC instant is %s' % (d.isoformat(), outs[0], want.isoformat())
+    if kind in ('norm', 'cmp', 'fold'):
+        return check_pure_cmds(c, outs)
     elif kind == 'iso':
         d = mkdt(c['cmds'][0][1])
         r = parse_dt_out(outs[1])
@@ -658,28 +774,6 @@ def oracle(c, io):
                 d = DMIN + TD(microseconds=cur)
                 if o.split(',')[:7] != [str(x) for x in (d.year, d.month, d.day, d.hour, d.minute, d.second, d.microsecond)]:
                     return 'marshall_now() under override = %s' % o
-    elif kind == 'cmp':
-        which, targ, s = c['cmds'][0]
-        now = DMIN + TD(microseconds=c['ov']['d']['w'])
-        su = secs_us(s)
-        if su is None: return None
-        if 's' in targ:
-            p = lib_parse(targ['s'])
-            if isinstance(p, Exception): return None
-            t = p
-        else:
-            t = mkdt(targ['d'])
-        tn = utc_instant(t) if t.tzinfo is not None else t
-        if tn is None: return None
-        delta = TD(microseconds=su)
-        if which == 'older': want = now - tn > delta
-        elif which == 'newer': want = tn - now > delta
-        else:
-            try: want = tn <= now + delta
-            except OverflowError: return None
-        if outs[0] != str(want):
-            return '%s(%s, %r) with now=%s gives %s, expected %s' % ({'older': 'is_older_than', 'newer': 'is_newer_than', 'soon': 'is_soon'}[which],
-                                                                  targ.get('s', t.isoformat()), secs_value(s), now.isoformat(), outs[0], want)
     return None
 
 def extra_checks(rng, tier):
@@ -747,5 +841,5 @@ RULE = ('cases = world (override slot, fake OS clock) + command list; kinds: nor
         'iso (isoformat -> parse_isotime), marsh (marshall_now + round trip; naive/UTC variants/other zones), leap (second 58..99), unm (arbitrary dicts, tznames), '
         'clock / fixture (scalar override, utcnow, utcnow_ts, 1-6 advances by delta or seconds, through the functions and through TimeFixture), cmp (is_older/newer/soon with t placed at '
         'the boundary now -/+ s and +-1 us, +-2 us, +-1 s, rendered naive / aware / ISO text), seq (random command sequences incl. list overrides, aware overrides, clear), parse (malformed and mutated ISO text), '
-        'cal (field split / constructor validation), dsec; walls drawn from datetime.min/max neighbourhoods, leap days, epoch, month/year ends, uniform; seconds from ints, exact-boundary, negative, '
-        'fractional, sub-microsecond; 121 fixed boundary cases first; distinct = distinct case JSON; trivial = none') % len(ZONES)
+        'fold (both folds of every ambiguous / skipped wall reading of the DST zones in 5 sample years and their neighbours, plus equal instants in other zones, in one sequence with repeats, for normalize_time and the comparisons with a margin between the two folds), cal (field split / constructor validation), dsec; walls drawn from datetime.min/max neighbourhoods, leap days, epoch, month/year ends, uniform; seconds from ints, exact-boundary, negative, '
+        'fractional, sub-microsecond; fixed boundary cases first; distinct = distinct case JSON; trivial = none') % len(ZONES)
